@@ -48,6 +48,37 @@ theorem C14_ranges_sound (cfg : J) (r : NumRule) (hr : r ∈ numRules ValidRules
       simp [this]
   · simp [ha]
 
+/-- No ranged leaf is written again after its range check (no alias folded in afterwards, no
+fallback assignment): the value returned at a rule's canonical path is the value that was checked.
+Structural fact recomputed from the AST: the translator flags every assignment to a checked cell. -/
+theorem C14_no_write_after_check :
+    (numRules ValidRules.rules).all (fun r => !r.rewritten && r.final.isNone) = true := by
+  decide +kernel
+
+/-- **accepted ⇒ every NORMALISED leaf with a documented range lies in it**: for every input and
+every numeric rule, if the rule is active and does not fire, the value the normalised config holds
+at the rule's canonical output path (`r.out`, aliases such as `ttl_s`/`ttl_sec` folded in) satisfies
+the documented range.  The harness evaluates the same predicate on the config the real validator
+returns (`NumRule.outOk`). -/
+theorem C14_ranges_sound_normalised (cfg : J) (r : NumRule) (hr : r ∈ numRules ValidRules.rules) :
+    r.outRangeOk (env cfg) = true := by
+  have h := List.all_eq_true.mp C14_no_write_after_check r hr
+  simp only [Bool.and_eq_true, Bool.not_eq_true', Option.isNone_iff_eq_none] at h
+  have hv : r.outValue (env cfg) = r.value (env cfg) := by
+    unfold NumRule.outValue
+    rw [h.2]
+  have := C14_ranges_sound cfg r hr
+  unfold NumRule.outRangeOk
+  rw [hv]
+  exact this
+
+/-- Non-vacuity: the table does carry alias rules (`ttl_s`/`ttl_sec` of the caches). -/
+example : ((numRules ValidRules.rules).filter (fun r => !r.aliases.isEmpty)).length ≥ 1 := by decide +kernel
+
+/-- Why the output form matters: a rule that checks the canonical key and folds the alias in
+afterwards accepts a value it never checked — the checked value is in range, the returned one is not. -/
+example : (Doc.ge 0).holds (.int 600) = true ∧ (Doc.ge 0).holds (.int (-5)) = false := by decide
+
 /-- Generic form: a guard that passes the syntactic check is sound for all values. -/
 theorem C14_ranges_generic (co : Co) (g : Gd) (d : Doc) (v : Num)
     (h : entails co g d = true) (hr : co.range v = true) (hg : g.eval v = false) :
@@ -99,7 +130,9 @@ theorem C14_guards_exact (cfg : J) (r : NumRule) (hr : r ∈ numRules ValidRules
 theorems hold: for every input, `allRangeOk` and `allRejectOk` are true. -/
 theorem C14_monitors_hold (cfg : J) : allRangeOk cfg = true ∧ allRejectOk cfg = true := by
   constructor
-  · exact List.all_eq_true.mpr (fun r hr => C14_ranges_sound cfg r hr)
+  · exact List.all_eq_true.mpr (fun r hr => by
+      rw [Bool.and_eq_true]
+      exact ⟨C14_ranges_sound cfg r hr, C14_ranges_sound_normalised cfg r hr⟩)
   · exact List.all_eq_true.mpr (fun r hr => C14_guards_exact cfg r hr)
 
 /-- Non-vacuity: the table has numeric rules, and a concrete input fires one of them. -/
